@@ -20,6 +20,14 @@ from vlib.substrate import stable_hash
 _S: dict[str, Any] = {}
 
 
+class FaultBase(BaseException):
+    """An abandonment that is not an Exception (the shape of KeyboardInterrupt, SystemExit, CancelledError)."""
+
+
+def _exc_cls(name: str | None):
+    return {None: Fault, "exception": Fault, "base": FaultBase, "keyboard_interrupt": KeyboardInterrupt, "system_exit": SystemExit, "generator_exit": GeneratorExit}[name]
+
+
 class Fault(RuntimeError):
     pass
 
@@ -168,7 +176,7 @@ def _fault(plan: dict[str, Any], counter: dict[str, int]):
                 return orig(*a, **kw)
             if counter["n"] - 1 == k:
                 counter["raised"] += 1
-                raise Fault(f"injected at {kind} call {k}")
+                raise _exc_cls(plan.get("exc"))(f"injected at {kind} call {k}")
             return orig(*a, **kw)
 
         return w
@@ -271,7 +279,7 @@ def _fault(plan: dict[str, Any], counter: dict[str, int]):
         raise ValueError(kind)
 
 
-def _trace_raisers() -> dict[str, Any]:
+def _trace_raisers(exc: str | None = None) -> dict[str, Any]:
     import jax.numpy as jnp
     from jax import lax
 
@@ -279,17 +287,17 @@ def _trace_raisers() -> dict[str, Any]:
 
     def top(x):
         y = jnp.tanh(x)
-        raise Fault("user function raises while traced (top level)")
+        raise _exc_cls(exc)("user function raises while traced (top level)")
 
     def in_loop(x):
         def body(i, v):
-            raise Fault("user function raises while traced (loop body)")
+            raise _exc_cls(exc)("user function raises while traced (loop body)")
 
         return lax.fori_loop(0, 3, body, jnp.tanh(x))
 
     def in_cond(x):
         def br(v):
-            raise Fault("user function raises while traced (cond branch)")
+            raise _exc_cls(exc)("user function raises while traced (cond branch)")
 
         return lax.cond(jnp.sum(x) > 0, br, lambda v: v, jnp.reshape(x, (2, 3)))
 
@@ -312,6 +320,16 @@ def enumerate_cases(tier: str, seed: int) -> list[dict[str, Any]]:
     for where in ("top", "loop_body", "cond_branch", "function_body", "nested_function_body", "function_body_retrace_only"):
         for dp in (False, True):
             cases.append({"key": f"trace_raise:{where}:dp={int(dp)}", "prog": None, "raiser": where, "dp": dp, "plan": {"kind": "none"}, "cost": 1.0})
+    # calls abandoned by something that is not an Exception (interrupt, exit, cancellation)
+    for where in ("top", "loop_body", "cond_branch"):
+        for exc in ("base", "keyboard_interrupt", "system_exit", "generator_exit"):
+            for dp in (False, True):
+                cases.append({"key": f"trace_abort:{where}:{exc}:dp={int(dp)}", "prog": None, "raiser": where, "exc": exc, "dp": dp, "plan": {"kind": "none"}, "cost": 1.0})
+    for kind, ks in (("lower", (0, 3)), ("resolve", (0, 500)), ("apply_patches", (1, 300)), ("monkey_patch_fn", (0, 7))):
+        for k in ks:
+            for exc in ("base", "keyboard_interrupt"):
+                for p in ("double", "onnx_function"):
+                    cases.append({"key": f"abort:{kind}:{k}:{exc}:{p}", "prog": p, "plan": {"kind": kind, "k": k, "exc": exc}, "cost": 1.0})
     # patch-stack faults: the index space is measured in the worker (count_only run); here strata
     n_strata = 40 if tier == "quick" else 400
     for kind, total_hint in (("resolve", 1100), ("apply_patches", 1100), ("monkey_patch_fn", 60)):
@@ -430,7 +448,7 @@ def run_case(case: dict[str, Any], tier: str, seed: int) -> dict[str, Any]:
         if case["fresh_jit"] == "in_function_body":
             fn = fnmods.c13_outer_with_jit_in_body
     elif case.get("raiser"):
-        fn = _trace_raisers()[case["raiser"]]
+        fn = _trace_raisers(case.get("exc"))[case["raiser"]]
         specs = [(2, 3)]
         kw: dict[str, Any] = {"enable_double_precision": bool(case.get("dp"))}
     else:
@@ -462,6 +480,9 @@ def run_case(case: dict[str, Any], tier: str, seed: int) -> dict[str, Any]:
                 raised = exc
             except Exception as exc:  # noqa: BLE001
                 raised = exc
+            except (FaultBase, KeyboardInterrupt, SystemExit, GeneratorExit) as exc:
+                raised = exc
+                rec["obs"]["calls_abandoned_by_non_Exception"] = 1
     finally:
         if ps.apply_patches is count_ap:
             ps.apply_patches = orig_ap
@@ -495,7 +516,7 @@ def run_case(case: dict[str, Any], tier: str, seed: int) -> dict[str, Any]:
     _monitors(case["key"], case.get("prog"), rec)
     if reached:
         stage = plan["kind"] if plan["kind"] != "none" else ("trace_raise:" + case["raiser"] if case.get("raiser") else "ok")
-        tag = f"{stage}:{plan.get('k', '')}:{plan.get('when', '')}:{case.get('prog') or case.get('raiser') or case.get('fresh_jit')}:{case['key'].split('#')[-1] if '#' in case['key'] else ''}:{case.get('dp', '')}"
+        tag = f"{stage}:{plan.get('k', '')}:{plan.get('when', '')}:{plan.get('exc') or case.get('exc') or ''}:{case.get('prog') or case.get('raiser') or case.get('fresh_jit')}:{case['key'].split('#')[-1] if '#' in case['key'] else ''}:{case.get('dp', '')}"
         rec["nontrivial"].append(tag)
     rec["status"] = "violated" if rec["violations"] else "held"
     rec["sample"] = {"call": case["key"], "position_in_process_history": _S["calls"], "raised": (type(raised).__name__ + ": " + str(raised)[:80]) if raised else None, "fault_sites_reached": counter["n"]}
